@@ -55,7 +55,7 @@ func runC06(c *Config, r *Report) {
 
 func c06R1(ic *IC, r *Report) {
 	g := buildSGraph(ic.SP)
-	sink := ic.SP.Func("runCfg")
+	sink := ic.ssaFunc("runCfg")
 	if sink == nil {
 		r.Errorf("anchor not resolved: runCfg")
 		return
